@@ -194,7 +194,10 @@ package middleware
 //@ ensures[everything-but-health-checks-passes-on] called(ServeHTTP) <==> !ret(isHealthCheckRequest)
 
 //@ func redirectToHTTPS$1
-//@ prop C17
+//@ safety
+//@ prop C17 C19
+//@ ensures[passed-on-or-redirected-never-dropped] called(ServeHTTP) || called(http.Redirect)
+//@ at call http.Redirect assert[permanent-redirect-for-this-request] arg(http.Redirect, 0) == rw && arg(http.Redirect, 1) == req && arg(http.Redirect, 3) == 308
 //@ at call ServeHTTP assert[next-gets-request-and-writer-unchanged] recv(ServeHTTP) == next && arg(ServeHTTP, 0) == rw && arg(ServeHTTP, 1) == req
 
 // ------------------------------------------------------------------ C19 / C01 / C12: the `nonnil` loader fields are established by the constructor
